@@ -158,6 +158,7 @@ def run_corpus(exe, corp):
     for i, (fam, p, s) in enumerate(corp):
         a, b = res[2 + 3 * i], res[3 + 3 * i]
         out["crypt"].append((rt.hash_of(a), rt.errno_of(a), int(b["v"])))
+        out.setdefault("mon", []).append({k: a.get(k) for k in ("can", "nul", "iz", "rz", "init", "r")})
     base = 1 + 3 * len(corp)
     for k, (m, pre) in enumerate(gl):
         r = res[base + k]
@@ -182,6 +183,12 @@ def judge(acc, name, en, got, full, corp, ipd):
         h, e, v = got["crypt"][i]
         fh = full["crypt"][i][0]
         acc.count("evaluations")
+        # the object monitors of C04/C09 hold in every configuration as well
+        mon = got.get("mon", [{}] * len(corp))[i]
+        if mon.get("can") == "0" or mon.get("nul") == "0" or mon.get("r", "N") not in ("N", "O"):
+            viol("object-monitor", "crypt(%r, %r): canary/NUL/pointer monitor %s" % (p, s, mon))
+        if gen.must_fail(p, s, en) is None and (mon.get("iz") == "0" or mon.get("rz") == "0" or mon.get("init") not in ("0", None)):
+            viol("scratch-not-wiped", "crypt(%r, %r): internal/reserved/initialized not reset %s" % (p, s, mon))
         m = gen.classify(s, en)                 # which enabled method claims it (None: nobody)
         m_full = gen.classify(s)
         exp_v = gen.checksalt_expect(s, en)
